@@ -15,6 +15,7 @@ EXTENDS Ledger, Json, IOUtils
 
 CONSTANTS MaxTicks,      \* committed ticks per history
           MaxCands,      \* candidates per tick
+          MaxCandsA,     \* candidates per tick in a history that contains an aborted transaction
           MaxAborts,     \* aborted transactions per history
           MaxJumps,      \* jump_to_tick calls FOLLOWED by commits per history (0 except in the rewind cfgs)
           PreNames,      \* pre-states (U0) explored
@@ -41,7 +42,8 @@ MC_Prog == <<
   P("DelNodeIso",  "S",  "S",  "e0", "tA", "tA", "p0"),   \* 9  delete S if it has no out-edge
   P("AddEdge",     "n0", "S",  "e1", "tB", "tB", "p0"),   \* 10 e1: n0 -> S
   P("DelEdgeFrom", "S",  "S",  "e1", "tA", "tA", "p0"),   \* 11 delete e1 if it leaves S
-  P("CopyAtt",     "n0", "S",  "e0", "tA", "tA", "p0")    \* 12 att(n0) -> att(S)
+  P("CopyAtt",     "n0", "S",  "e0", "tA", "tA", "p0"),   \* 12 att(n0) -> att(S)
+  P("DelEdgeFrom", "S",  "S",  "e2", "tA", "tA", "p0")    \* 13 delete e2 if it leaves S
 >>
 
 IdRanks    == JsonDeserialize(IOEnv.VERIF_IDS)
@@ -53,18 +55,21 @@ AllCands   == CandU \cup UNION AbortSets
 MC_KeyRank == [c \in AllCands |-> IdRanks.scope[CandName(c)]]
 MC_Root    == <<"w0", "n0">>
 
-\* node life-cycle + attachment data flow (create / delete / re-create n2, att(n2) -> att(n0), retype by att)
-MC_CandU_life == {<<9, "w0", "n2">>, <<7, "w0", "n0">>, <<2, "w0", "n2">>, <<3, "w0", "n2">>, <<8, "w0", "n0">>}
-\* edge life-cycle: delete / re-create / re-parent e0 (keeps its attachment: F1 path), set its attachment,
-\* delete a node whose out-edge was re-parented away or whose in-edge was deleted
-MC_CandU_edge == {<<5, "w0", "n1">>, <<4, "w0", "n2">>, <<6, "w0", "n0">>, <<9, "w0", "n1">>, <<4, "w0", "n1">>}
-\* both, for the thorough tier
-MC_CandU_mix  == {<<9, "w0", "n2">>, <<7, "w0", "n0">>, <<2, "w0", "n2">>, <<3, "w0", "n2">>,
-                  <<5, "w0", "n1">>, <<4, "w0", "n2">>, <<9, "w0", "n1">>}
-\* chain pre-state: e0: n2 -> n1, e1: n0 -> n2
-MC_CandU_chain == {<<5, "w0", "n2">>, <<11, "w0", "n0">>, <<9, "w0", "n1">>, <<9, "w0", "n2">>, <<7, "w0", "n0">>,
-                   <<4, "w0", "n1">>}
-\* descended instance (portal pre-state): ticks inside w1 read the portal slot of the descent chain
+\* Universes.  The state root only covers what is reachable from Root = (w0, n0); the "hub" pre-state hangs n1 and n2
+\* off the root (e1: n0 -> n1, e2: n0 -> n2) so that what the ticks change is hashed.
+\* node life-cycle + attachment data flow on hub: unhook / delete / re-create / retype n2, att(n2), att(n2) -> att(n0)
+MC_CandU_life == {<<13, "w0", "n0">>, <<9, "w0", "n2">>, <<7, "w0", "n0">>, <<2, "w0", "n2">>, <<3, "w0", "n2">>}
+\* edge life-cycle on hub: delete / RE-PARENT e0 (keeps its attachment: the F1 path), set its attachment, unhook n1,
+\* delete n1 once its out-edge was deleted or re-parented away and its in-edge deleted
+MC_CandU_edge == {<<5, "w0", "n1">>, <<4, "w0", "n2">>, <<6, "w0", "n0">>, <<11, "w0", "n0">>, <<9, "w0", "n1">>}
+\* larger mixes for the thorough tier
+MC_CandU_mix  == {<<13, "w0", "n0">>, <<9, "w0", "n2">>, <<7, "w0", "n0">>, <<3, "w0", "n2">>, <<8, "w0", "n0">>,
+                  <<5, "w0", "n1">>, <<4, "w0", "n2">>}
+MC_CandU_edge6 == MC_CandU_edge \cup {<<4, "w0", "n1">>}
+\* chain pre-state: e0: n2 -> n1, e1: n0 -> n2 (everything reachable through the edges the ticks change)
+MC_CandU_chain == {<<5, "w0", "n2">>, <<11, "w0", "n0">>, <<9, "w0", "n1">>, <<9, "w0", "n2">>, <<4, "w0", "n1">>,
+                   <<7, "w0", "n0">>}
+\* descended instance (hubportal pre-state): ticks inside w1 read the portal slot of the descent chain
 MC_CandU_portal == {<<1, "w1", "n0">>, <<4, "w1", "n1">>, <<5, "w1", "n0">>, <<9, "w1", "n1">>, <<2, "w0", "n0">>}
 
 MC_AbortSets_one == {{<<7, "w0", "n0">>, <<2, "w0", "n1">>}}
@@ -88,6 +93,18 @@ PreState(name) ==
     [] name = "portal" -> Build(Base \o <<OpOpenPortal(NAtt("w0", "n1"), "w1", "n0", <<"empty", "tA">>),
                                           OpUpsertNode("w1", "n1", "tB"),
                                           OpUpsertEdge("w1", "e0", "n0", "n1", "tA")>>)
+    \* edges + hub edges from the root, so that n1, n2 and the edge e0 leaving n1 are reachable
+    [] name = "hub"    -> Build(Base \o <<OpUpsertNode("w0", "n2", "tA"),
+                                          OpUpsertEdge("w0", "e0", "n1", "n0", "tA"),
+                                          OpUpsertEdge("w0", "e1", "n0", "n1", "tB"),
+                                          OpUpsertEdge("w0", "e2", "n0", "n2", "tA"),
+                                          OpSetAtt(EAtt("w0", "e0"), Atom("p0")),
+                                          OpSetAtt(NAtt("w0", "n1"), Atom("p0"))>>)
+    \* portal hung off the root: w1 is reachable through n0 -e1-> n1 => Descend(w1)
+    [] name = "hubportal" -> Build(Base \o <<OpUpsertEdge("w0", "e1", "n0", "n1", "tB"),
+                                          OpOpenPortal(NAtt("w0", "n1"), "w1", "n0", <<"empty", "tA">>),
+                                          OpUpsertNode("w1", "n1", "tB"),
+                                          OpUpsertEdge("w1", "e0", "n0", "n1", "tA")>>)
 
 \* ---- macro steps ----------------------------------------------------------
 Step(kind, S, k) == [kind |-> kind, cands |-> S, k |-> k]
@@ -99,6 +116,7 @@ Init == /\ preName \in PreNames /\ eng = NewEngine(PreState(preName))
 
 TickStep(S) ==
   /\ NTicks < MaxTicks
+  /\ Cardinality(S) <= IF NOf("abort") > 0 THEN MaxCandsA ELSE MaxCands
   /\ \A c \in S : Matches(c, eng.state)
   /\ LET tx == NewTx(eng)
          e2 == DoApplyAll(DoBegin(eng), tx, S)
@@ -110,6 +128,7 @@ TickStep(S) ==
 \* candidates of an aborted transaction that do not match are NoMatch calls (nothing enqueued)
 AbortStep(S) ==
   /\ NOf("abort") < MaxAborts
+  /\ \A i \in 1..Len(script) : Cardinality(script[i].cands) <= MaxCandsA
   /\ LET tx == NewTx(eng) IN eng' = DoAbort(DoApplyAll(DoBegin(eng), tx, S), tx)
   /\ script' = Append(script, Step("abort", S, 0))
   /\ lastKind' = "abort" /\ UNCHANGED preName
